@@ -243,7 +243,7 @@ def compare_signatures(name, a, b):
 from .histories import histories, _base
 
 
-def history_task(hname, method):
+def history_task(hname, method, prop="C13"):
     def fn():
         c = ctx()
         h = histories()[hname]
@@ -252,11 +252,24 @@ def history_task(hname, method):
         before = (len(a.states), len(a.controls), sum(len(v) for v in a._constraints.values()), id(a._T), len(a._initial))
         a._transcribed
         after = (len(a.states), len(a.controls), sum(len(v) for v in a._constraints.values()), id(a._T), len(a._initial))
-        name = "C13/%s/%s|ocp:Ocp._transcribed" % (hname, method)
+        name = "%s/%s/%s|ocp:Ocp._transcribed" % (prop, hname, method)
         (c.ok if before == after else lambda n_, **k: c.fail(n_, "transcribing changed the declaration: %s -> %s" % (before, after)))(name + ":frame:declaration-unchanged")
         b._transcribed
-        compare_signatures("C13/%s/%s|ocp:Ocp._transcribe:ensures:same-as-fresh" % (hname, method), signature(a), signature(b))
+        compare_signatures("%s/%s/%s|ocp:Ocp._transcribe:ensures:same-as-fresh" % (prop, hname, method), signature(a), signature(b))
     return fn
+
+
+def history_tasks_for(prop, select, tier):
+    """the histories whose name satisfies `select`, listed under another property (a declaration made on a stage of a
+    multi-stage problem after a first transcription must reach the NLP just like one made before it)"""
+    out = []
+    for hname in histories():
+        if not select(hname):
+            continue
+        for m in (("MS", "SS", "DC") if tier == "thorough" else ("MS", "DC")):
+            out.append(Task("%s/%s/%s" % (prop, hname, m), history_task(hname, m, prop), kind="bounded", bound=dict(history=hname, method=m, N=2),
+                            replay=dict(harness="history_diff", history=hname, method=m)))
+    return out
 
 
 def tasks(tier):
